@@ -80,7 +80,7 @@ PROP = {
         "shards": {"quick": 4, "thorough": 8},
         "watchdog": {"quick": 600, "thorough": 3600},
         "floors": {
-            "quick": {"final_scenarios": 20, "final_stop_runs": 140, "oracle_final_terminal_evals": 140},
+            "quick": {"final_scenarios": 48, "final_stop_runs": 340, "oracle_final_terminal_evals": 340},
             "thorough": {"final_scenarios": 600, "final_stop_runs": 4000, "oracle_final_terminal_evals": 4000},
         },
     }],
